@@ -12,6 +12,7 @@ import (
 	"verifharness/evidence"
 	"verifharness/fakecluster"
 	"verifharness/rclient"
+	"verifharness/refmodel"
 	"verifharness/sut"
 )
 
@@ -20,7 +21,9 @@ import (
 // while other clients disconnect mid-flight, some keys cannot be routed, after timeouts, across reconnects.
 
 type c03Action struct {
-	Kind string      `json:"kind"` // connect | send | disconnect | release | killbackend | refuse | accept | wait
+	// connect | send | disconnect | release | killbackend | refuse | accept | wait |
+	// abandon (a throw-away connection writes the first A%40+1 bytes of a SET carrying a token of its own and leaves)
+	Kind string      `json:"kind"`
 	A    int         `json:"a"`
 	Pipe *ClientSpec `json:"pipe,omitempty"`
 }
@@ -51,12 +54,24 @@ func c03Gen(t *rapid.T) c03Case {
 	n := rapid.IntRange(5, 40).Draw(t, "nactions")
 	c.Actions = append(c.Actions, c03Action{Kind: "connect"}, c03Action{Kind: "connect"})
 	for i := 0; i < n; i++ {
-		kind := rapid.SampledFrom([]string{"connect", "send", "send", "send", "send", "disconnect", "release", "release", "release", "killbackend", "refuse", "accept", "wait"}).Draw(t, "akind")
+		kind := rapid.SampledFrom([]string{"connect", "send", "send", "send", "send", "disconnect", "release", "release", "release", "killbackend", "refuse", "accept", "wait", "abandon"}).Draw(t, "akind")
 		a := c03Action{Kind: kind, A: rapid.IntRange(0, 50).Draw(t, "a")}
 		if kind == "send" {
 			cs := genClientPipe(t, i, o, &c.Plans)
 			cs.Cuts = nil
 			a.Pipe = &cs
+			// some replies reach the proxy in two reads (the first piece waits in the connection's buffer)
+			planned := map[string]bool{}
+			for _, p := range c.Plans {
+				planned[string(p.Key)] = true
+			}
+			for ri := range cs.Reqs {
+				r := &cs.Reqs[ri]
+				if k := keyOfReq(r); k != nil && !planned[string(k)] && rapid.IntRange(0, 3).Draw(t, "splitreply") == 0 {
+					c.Plans = append(c.Plans, Plan{Key: k, SplitAt: rapid.IntRange(1, 9).Draw(t, "splitat")})
+					planned[string(k)] = true
+				}
+			}
 		}
 		c.Actions = append(c.Actions, a)
 	}
@@ -152,6 +167,22 @@ func c03Run(f *Fixture, c *c03Case) []Discrepancy {
 			}
 			live = append(live[:i], live[i+1:]...)
 			time.Sleep(300 * time.Microsecond)
+		case "abandon":
+			if cl, err := rclient.Dial(f.Proxy.Addr(), ""); err == nil {
+				full := refmodel.EncodeCmdS("set", refmodel.KeyInSlot(100+a.A, fmt.Sprintf("c9%dr0k0", ai)), "left-behind-by-a-client-that-is-gone")
+				n := a.A%40 + 1
+				if n >= len(full) {
+					n = len(full) - 1
+				}
+				cl.Write(full[:n])
+				time.Sleep(500 * time.Microsecond)
+				if a.A%2 == 0 {
+					cl.Close()
+				} else {
+					cl.CloseRST()
+				}
+				time.Sleep(300 * time.Microsecond)
+			}
 		case "release":
 			gates.releaseNth(a.A)
 			time.Sleep(300 * time.Microsecond)
@@ -238,7 +269,7 @@ func c03Classify(c *c03Case) (bool, []string) {
 		switch a.Kind {
 		case "connect":
 			clients++
-		case "disconnect", "killbackend", "refuse":
+		case "disconnect", "killbackend", "refuse", "abandon":
 			events = true
 		case "send":
 			bad := map[int]bool{}
